@@ -171,38 +171,57 @@ def hexArgs : Bytes → ExprList
   | [] => .nil
   | b :: rest => .cons (.hex b.toNat) (hexArgs rest)
 
+/-- `f64::is_nan` on the bit pattern: exponent field all ones and a non-zero fraction -/
+def isNaNBits (b : Nat) : Bool := (b / 2 ^ 52) % 2048 == 2047 && b % 2 ^ 52 != 0
+
 /-- `Serializer::complete_table_entry`: a key that is a string expression whose value is
-valid UTF-8 and `is_valid_identifier` becomes a field entry `k = v`; every other key
-(strings included) becomes an index entry `[k] = v`. (Bytes that are not valid UTF-8 are not
-ASCII, so `isValidIdentifier` is already false for them.) -/
-def completeTableEntry (key value : Expr) (tl : EntryList) : EntryList :=
+valid UTF-8 and `is_valid_identifier` becomes a field entry `k = v`; every other string key
+becomes an index entry `["k"] = v`. (Bytes that are not valid UTF-8 are not ASCII, so
+`isValidIdentifier` is already false for them.) Of the non-string keys, `nil` and a NaN number
+make the serializer return an error (`none`; fix of F15: such a constructor would raise when
+run); every other key becomes an index entry `[k] = v`. -/
+def completeTableEntry (key value : Expr) (tl : EntryList) : Option EntryList :=
   match key with
-  | .str s => if isValidIdentifier s then .named s value tl else .keyed (.str s) value tl
-  | k => .keyed k value tl
+  | .str s => some (if isValidIdentifier s then .named s value tl else .keyed (.str s) value tl)
+  | .nil => none
+  | .num b => if isNaNBits b then none else some (.keyed (.num b) value tl)
+  | k => some (.keyed k value tl)
 
 mutual
-/-- `to_expression` (src/process/expression_serializer.rs) -/
-def toExpr : Data → Expr
-  | .null => .nil
-  | .bool b => if b then .true else .false
-  | .i64 v => .num (intToF64 v)
-  | .u64 v => .num (intToF64 (v : Int))
-  | .f64 bits => .num bits
-  | .str s => .str s
-  | .bytes bs => .call (.field (.var bSTRING) bCHAR) (hexArgs bs)
+/-- `to_expression` (src/process/expression_serializer.rs); `none` = `Err(LuaSerializerError)` -/
+def toExpr : Data → Option Expr
+  | .null => some .nil
+  | .bool b => some (if b then .true else .false)
+  | .i64 v => some (.num (intToF64 v))
+  | .u64 v => some (.num (intToF64 (v : Int)))
+  | .f64 bits => some (.num bits)
+  | .str s => some (.str s)
+  | .bytes bs => some (.call (.field (.var bSTRING) bCHAR) (hexArgs bs))
   | .some d => toExpr d
-  | .seq xs => .table (seqEntries xs)
-  | .map kvs => .table (mapEntries kvs)
-  | .variant name d => .table (completeTableEntry (.str name) (toExpr d) .nil)
+  | .seq xs => match seqEntries xs with
+    | some es => some (.table es)
+    | none => none
+  | .map kvs => match mapEntries kvs with
+    | some es => some (.table es)
+    | none => none
+  | .variant name d => match toExpr d with
+    | some v => match completeTableEntry (.str name) v .nil with
+      | some es => some (.table es)
+      | none => none
+    | none => none
 /-- elements of a sequence: `process` with a `Table` operation on top pushes `TableEntry::from_value` -/
-def seqEntries : DataList → EntryList
-  | .nil => .nil
-  | .cons d tl => .pos (toExpr d) (seqEntries tl)
+def seqEntries : DataList → Option EntryList
+  | .nil => some .nil
+  | .cons d tl => match toExpr d, seqEntries tl with
+    | some e, some es => some (.pos e es)
+    | _, _ => none
 /-- `serialize_key` / `serialize_value` pairs: key pushed on the expression stack, then
-`complete_table_entry` -/
-def mapEntries : PairList → EntryList
-  | .nil => .nil
-  | .cons k v tl => completeTableEntry (toExpr k) (toExpr v) (mapEntries tl)
+`complete_table_entry`; an error anywhere aborts the whole conversion -/
+def mapEntries : PairList → Option EntryList
+  | .nil => some .nil
+  | .cons k v tl => match toExpr k, toExpr v, mapEntries tl with
+    | some ke, some ve, some es => completeTableEntry ke ve es
+    | _, _, _ => none
 end
 
 end DarkluaModel.C14
